@@ -189,6 +189,160 @@ def loopback_concurrency(rng, n_clients, tier):
     return results
 
 
+def stalled_peer_case():
+    """Requesting side: one entity requests two associations; the first peer accepts the TCP connection but withholds
+    its A-ASSOCIATE-AC.  The second association (to a healthy server) must be established and served meanwhile: a
+    stalled association does not disturb the others."""
+    import socket
+    from pynetdicom2 import applicationentity as aemod, sopclass
+    slow = socket.socket()
+    slow.bind(('127.0.0.1', 0))
+    slow.listen(1)
+    conns = []
+
+    def hold():
+        try:
+            c, _a = slow.accept()
+            conns.append(c)          # read nothing, answer nothing
+        except Exception:  # noqa
+            pass
+    th = threading.Thread(target=hold)
+    th.daemon = True
+    th.start()
+    srv = aemod.AE('SERVER', 0).add_scp(sopclass.verification_scp)
+    cli = aemod.ClientAE('CLIENT').add_scu(sopclass.verification_scu)
+    cli.timeout = 6
+    got = []
+    first_started = threading.Event()
+
+    def first():
+        try:
+            first_started.set()
+            with cli.request_association(dict(address='127.0.0.1', port=slow.getsockname()[1], aet='SLOW')):
+                got.append('first:unexpectedly-established')
+        except Exception as e:  # noqa
+            got.append('first:%s' % type(e).__name__)
+    with loopback.serving(srv) as port:
+        t1 = threading.Thread(target=first)
+        t1.daemon = True
+        t1.start()
+        first_started.wait(5)
+        time.sleep(0.5)                 # the first request is now waiting for its answer
+        t0 = time.time()
+        second = 'second:not-finished'
+        try:
+            with cli.request_association(loopback.remote(port)) as assoc:
+                st = assoc.get_scu(sopclass.VERIFICATION_SOP_CLASS)(1)
+                second = 'second:echo:%d' % int(st)
+        except Exception as e:  # noqa
+            second = 'second:%s' % type(e).__name__
+        dt = time.time() - t0
+        if dt > 3.0:                    # far beyond what a loopback echo needs, yet below the first one's time-out
+            second += ':held-up-%.0fs' % dt
+        t1.join(10)
+    for c in conns:
+        c.close()
+    slow.close()
+    return dict(client='stalled-peer', expected=['second:echo:0'], got=[second], server_expected=[], server_stored=[],
+                error=None, aborted=False, first=got)
+
+
+def same_instance_in_flight_case(workdir):
+    """Directory-backed storage entity, the SAME SOP instance UID in flight on two associations at once: association A
+    (a raw peer) has sent its C-STORE command and holds back the data set while association B stores the same
+    instance completely; then A finishes.  Each handler must be handed exactly its own association's data set."""
+    import socket
+    import struct
+    import pydicom
+    import pynetdicom2
+    from pynetdicom2 import applicationentity as aemod, sopclass, statuses, pdu, userdataitems, dimsemessages as dm, dsutils
+    from pydicom.dataset import Dataset
+    CT = '1.2.840.10008.5.1.4.1.1.2'
+    seen = []
+    lock = threading.Lock()
+
+    def on_store(self, context, fobj):
+        d = pydicom.dcmread(fobj)
+        with lock:
+            seen.append(str(d.PatientName))
+        return statuses.SUCCESS
+    d = os.path.join(workdir, 'same-uid')
+    os.makedirs(d, exist_ok=True)
+    srv = type('S', (pynetdicom2.StorageAE,), dict(on_receive_store=on_store))(d, 'SERVER', 0)
+    srv.add_scp(sopclass.storage_scp)
+    srv.handle_error = lambda *a: None
+
+    def dataset(name):
+        ds = Dataset()
+        ds.SOPClassUID = CT
+        ds.SOPInstanceUID = '1.2.3.777'
+        ds.PatientName = name
+        ds.is_implicit_VR = True
+        ds.is_little_endian = True
+        return ds
+
+    def read_pdu(conn):
+        head = b''
+        while len(head) < 6:
+            c = conn.recv(6 - len(head))
+            if not c:
+                return None
+            head += c
+        n = struct.unpack('>I', head[2:6])[0]
+        body = b''
+        while len(body) < n:
+            c = conn.recv(n - len(body))
+            if not c:
+                return None
+            body += c
+        return head + body
+    got = []
+    with loopback.serving(srv) as port:
+        a = socket.create_connection(('127.0.0.1', port))
+        a.settimeout(10)
+        try:
+            items = [pdu.ApplicationContextItem('1.2.840.10008.3.1.1.1'),
+                     pdu.PresentationContextItemRQ(1, pdu.AbstractSyntaxSubItem(CT), [pdu.TransferSyntaxSubItem('1.2.840.10008.1.2')]),
+                     pdu.UserInformationItem([userdataitems.MaximumLengthSubItem(16384),
+                                              userdataitems.ImplementationClassUIDSubItem('1.2.3.4')])]
+            a.sendall(pdu.AAssociateRqPDU('SERVER', 'RAW-A', items).encode())
+            read_pdu(a)                                           # A-ASSOCIATE-AC
+            msg = dm.CStoreRQMessage()
+            msg.message_id = 7
+            msg.priority = 0
+            msg.sop_class_uid = CT
+            msg.affected_sop_instance_uid = '1.2.3.777'
+            msg.data_set = dsutils.encode(dataset('FROM^A'), True, True)
+            msg.set_length()
+            pdus = [p.encode() for p in msg.encode(1, 16384)]
+            a.sendall(pdus[0])                                    # the command: the server opens A's file now
+            time.sleep(0.5)
+            cli = aemod.ClientAE('CLIENT-B').add_scu(sopclass.storage_scu, [CT])
+            cli.timeout = 8
+            try:
+                with cli.request_association(loopback.remote(port)) as assoc:
+                    st = assoc.get_scu(CT)(dataset('FROM^B'), 3)
+                    got.append('B:status:%d' % int(st))
+            except Exception as e:  # noqa
+                got.append('B:%s' % type(e).__name__)
+            for raw in pdus[1:]:
+                a.sendall(raw)                                    # now A's data set
+            rsp = read_pdu(a)
+            got.append('A:answered' if rsp and rsp[0] == 4 else 'A:no-response')
+            a.sendall(pdu.AReleaseRqPDU().encode())
+            read_pdu(a)
+        except Exception as e:  # noqa
+            got.append('A:%s' % type(e).__name__)
+        finally:
+            a.close()
+        time.sleep(0.3)
+    got.append('handlers:' + ','.join(sorted(seen)))
+    files = sorted(os.listdir(d))
+    got.append('files:%d' % len(files))
+    return dict(client='same-instance-in-flight', expected=['B:status:0', 'A:answered', 'handlers:FROM^A,FROM^B', 'files:2'],
+                got=got, server_expected=[], server_stored=[], error=None, aborted=False, files=files)
+
+
 def msg_id_threads(n_threads, per_thread):
     import pynetdicom2
     out = [None] * n_threads
@@ -227,6 +381,15 @@ def main(tier, seed):
     n_clients = 8 if tier == 'quick' else 40
     loops = loopback_concurrency(rng, n_clients, tier)
     ids = msg_id_threads(8, 200)
+    loops = loops + [stalled_peer_case()]
+    import shutil
+    wd = os.path.join(common.BUILD, 'c20-%d' % os.getpid())
+    shutil.rmtree(wd, ignore_errors=True)
+    os.makedirs(wd)
+    try:
+        loops.append(same_instance_in_flight_case(wd))
+    finally:
+        shutil.rmtree(wd, ignore_errors=True)
     lterms = []
     for r in loops:
         if r is None:
@@ -247,7 +410,8 @@ def main(tier, seed):
     cov['rule'] = ('static audit of shared-state writes in the run-time modules; %d rounds of 2..4 real providers in real '
                    'threads stepped one iteration at a time in seeded interleavings (each compared with the model and with '
                    'its solo run); %d concurrent loopback clients (echo, 1..3 stores with distinct data, C-FIND with '
-                   'client-specific results, every fifth aborting) against one server entity; _new_msg_id in 8 threads'
+                   'client-specific results, every fifth aborting) against one server entity; one requesting entity with a peer that '
+                   'withholds its A-ASSOCIATE-AC and a healthy one; _new_msg_id in 8 threads'
                    % (6 if tier == 'quick' else 60, n_clients))
     cov['distribution'] = dict(audit_findings=len(writes), interleaved_providers=len(terms), loopback_clients=n_clients,
                                aborting_clients=sum(1 for r in loops if r and r['aborted']),
